@@ -104,3 +104,12 @@ Definition all_rego_versions (manifests : vmap) (project : option version) (root
   let m0 := fold_left (fun m kv => assoc_set m (fst kv) (snd kv)) manifests [] in
   let m1 := match project with Some v => assoc_set m0 [] v | None => m0 end in
   fold_left (fun m kv => assoc_set m (fst kv) (snd kv)) roots m1.
+
+(* entries without a version (a root given only by its path, a .manifest without rego_version)
+   are not entered into the map at all *)
+Definition present (l : list (str * option version)) : vmap :=
+  flat_map (fun kv => match snd kv with Some v => [(fst kv, v)] | None => [] end) l.
+
+Definition all_rego_versions_opt (manifests : list (str * option version)) (project : option version)
+           (roots : list (str * option version)) : vmap :=
+  all_rego_versions (present manifests) project (present roots).
